@@ -570,7 +570,8 @@ def main():
             "disagreements": len(diffs), "known_findings_confirmed": [f["id"] for f in known_hits],
             "exhaustive": bool(cfg.get("exhaustive", False)),
             "explanation": cfg.get("explanation", ""),
-            "programs": prog_stats,
+            "programs": int((prog_stats or {}).get("programs", 0)),
+            "program_layer": prog_stats,
         },
         "assumptions": cfg.get("assumptions", []),
         "wall_s": round(time.time() - t0, 2),
